@@ -216,6 +216,8 @@ def run_c19(tier, seed):
             probs.append(r["note"])
         if r.get("registry_after", 0) != 0:
             probs.append("%d connections remain in the registry" % r["registry_after"])
+        if r.get("not_closed_by_server", 0) != 0:
+            probs.append("%d connections were not closed and released by the server within 3 s after QUIT / a protocol error (the client kept its end open and waited)" % r["not_closed_by_server"])
         if r.get("goroutine_delta", 0) > 0:
             probs.append("%d server goroutines remain" % r["goroutine_delta"])
         if r.get("fd_delta", 0) > 0:
